@@ -38,6 +38,10 @@ type Style struct {
 	EmptyAnn         int    // >0: every EmptyAnn-th value without rules and note gets an empty "//" annotation
 	AutoNotes        int    // >0: every AutoNotes-th value without a note of its own gets one
 	JoinLines        bool   // several properties on one line and one-line containers where no annotation is involved (ignored when comments or empty annotations are on)
+	NameGap          int    // >0: every NameGap-th rule name is followed by a blank (space, tab, space+tab) before its colon
+	BlockInRules     int    // >0: every BlockInRules-th rule is preceded by a one-line ### block ### user comment inside the rule object
+	BlankInEmpty     int    // >0: every BlankInEmpty-th empty container has a blank (space, tab, two spaces) between its brackets
+	PropAfterArray   bool   // a property that follows a non-empty array value starts on the line of the closing bracket ("], "b": ...")
 	StrayNotes       int    // >0: every StrayNotes-th opportunity gets a note that belongs to no value: on a line of its own between properties / items, or after the closing brace of a non-empty object
 	NoteNextLine     bool   // note-only annotations of values that no comma follows go to the next line (every other one)
 	BlankLines       bool   // blank lines between properties
@@ -62,6 +66,9 @@ type printer struct {
 	hn       int  // enum head-note counter
 	nn       int  // next-line-note counter
 	sn       int  // stray-note counter
+	be       int  // empty-container counter (BlankInEmpty)
+	ng       int  // rule-name counter (NameGap)
+	br       int  // rule counter (BlockInRules)
 	afterArr bool // a non-empty array was closed and no value has begun since (annotations are not taken there)
 	ann      int  // annotation counter (MixedAnn)
 	inMulti  bool // inside a /* */ annotation
@@ -137,6 +144,17 @@ func (p *printer) stray(level int) {
 			p.w(p.st.NL)
 		}
 	}
+}
+
+// emptyGap: what stands between the brackets of an empty container.
+func (p *printer) emptyGap() string {
+	if p.st.BlankInEmpty > 0 {
+		p.be++
+		if p.be%p.st.BlankInEmpty == 0 {
+			return []string{" ", "\t", "  "}[(p.be/p.st.BlankInEmpty)%3]
+		}
+	}
+	return ""
 }
 
 func nonEmptyArray(n *ref.SNode) bool { return n.Kind == ref.SArr && len(n.Items) > 0 }
@@ -231,11 +249,23 @@ func (p *printer) ruleObject(rules []ref.SRule, spread bool, level int) {
 		} else if k > 0 {
 			p.w(" ")
 		}
+		if p.st.BlockInRules > 0 && !p.inMulti { // (inside /* */ annotations the library takes no user comments)
+			p.br++
+			if p.br%p.st.BlockInRules == 0 {
+				p.w("### c ### ")
+			}
+		}
 		r.Begin = len(p.b)
 		if p.st.QuoteNames || r.Quoted {
 			p.w(`"` + r.Name + `"`)
 		} else {
 			p.w(r.Name)
+		}
+		if p.st.NameGap > 0 {
+			p.ng++
+			if p.ng%p.st.NameGap == 0 {
+				p.w([]string{" ", "\t", " \t"}[(p.ng/p.st.NameGap)%3])
+			}
 		}
 		p.w(": ")
 		p.ruleValue(r, spread, level)
@@ -366,6 +396,7 @@ func (p *printer) node(n *ref.SNode, level int, comma bool) {
 	case ref.SObj:
 		p.w("{")
 		if len(n.Props) == 0 {
+			p.w(p.emptyGap())
 			p.w("}")
 			n.End = len(p.b) - 1
 			p.w(c)
@@ -377,7 +408,10 @@ func (p *printer) node(n *ref.SNode, level int, comma bool) {
 		p.eolComment()
 		for i := range n.Props {
 			pr := &n.Props[i]
-			if i > 0 && p.joining() && p.oneLine(n.Props[i-1].Val) && p.firstLineFree(pr.Val) {
+			if i > 0 && p.st.PropAfterArray && nonEmptyArray(n.Props[i-1].Val) && !(p.joining() && p.oneLine(n.Props[i-1].Val)) {
+				// (only the closing bracket of a multi-line array: a rule may not stand on a line with several values)
+				p.w(" ")
+			} else if i > 0 && p.joining() && p.oneLine(n.Props[i-1].Val) && p.firstLineFree(pr.Val) {
 				// several properties on one line: allowed as long as at most one value of the line
 				// could take an annotation
 				p.w(" ")
@@ -417,6 +451,7 @@ func (p *printer) node(n *ref.SNode, level int, comma bool) {
 	case ref.SArr:
 		p.w("[")
 		if len(n.Items) == 0 {
+			p.w(p.emptyGap())
 			p.w("]")
 			n.End = len(p.b) - 1
 			p.w(c)
